@@ -126,6 +126,22 @@ ZRoundRel(z, t, D, largest, smallest, inc, mode) ==
                           ELSE IF SignConflict(rr.dur) THEN [kind |-> "any"]
                           ELSE Ok(ToDurZ(rr.dur, largest))
 
+\* ZonedDateTime.until / since with rounding options (DifferenceTemporalZonedDateTime): the difference is measured, rounded relative to the
+\* receiver (since: with the negated mode) and negated at the end for since
+ZDiffRounded(z, t1, t2, largest, smallest, inc, mode, isSince) ==
+  LET m == IF isSince THEN NegateMode(mode) ELSE mode
+      sgn(D) == IF isSince THEN NegDur(D) ELSE D
+  IN IF smallest = "nanosecond" THEN (IF isSince THEN ZSince(z, t1, t2, largest) ELSE ZUntil(z, t1, t2, largest))
+     ELSE IF largest \in TimeUnits THEN Ok(sgn(BalanceDur(K9(FromInt(RoundI(t2 - t1, inc * UnitSec(smallest), m))), largest)))
+     ELSE IF t1 = t2 THEN Ok(ZeroDur)
+     ELSE LET rec == ZDiffRec(z, t1, t2, largest)
+              w0 == Wall(z, t1)
+          IN IF ~rec.defined \/ SignConflict(rec) THEN [kind |-> "any"]
+             ELSE LET rr == RoundRelativeZ(IDZ(rec.y, rec.mo, rec.w, rec.d, rec.t), t2, z, WDate(w0), WSod(w0), largest, inc, smallest, m)
+                  IN IF rr.kind # "ok" THEN (IF rr.kind = "range" THEN ErrRange ELSE [kind |-> "any"])
+                     ELSE IF SignConflict(rr.dur) THEN [kind |-> "any"]
+                     ELSE Ok(sgn(ToDurZ(rr.dur, largest)))
+
 \* Duration.total(unit, relativeTo: zoned) as an exact rational [n, d] of integers (d > 0)
 ZTotalRel(z, t, D, unit) ==
   LET tg == ZAdd(z, t, D, "constrain")
